@@ -31,11 +31,12 @@ package srv
 //@   props C10
 //@   option noframe
 //@   option ghost any
-//@   requires s != nil && ctx != nil && s.mylate == 0
+//@   requires s != nil && ctx != nil && s.mylate == 0 && !held(s.wg.mu)
 //@   ensures restored: s.mylate == 0
 //@   ensures classes: result == nil || result == ErrServiceAlreadyStarted || result == ErrServiceReturned
 
 //@ func (*Service).Running
 //@   props C10
 //@   option ghost any
+//@   option noframe
 //@   requires s != nil
